@@ -50,7 +50,11 @@ class C12(scen.WorldProp):
         for i in range(n):
             N = rng.choice([4, 6, 8, 8, 12, 16])
             nh = rng.randint(max(2, (N + 2) // 3), N - 1)
-            mode = rng.choice(["fixed", "inertia0", "geometric", "geometric", "change", "inertia0", "inert_then_change"])
+            mode = rng.choice(["fixed", "inertia0", "geometric", "geometric", "change", "inertia0", "inert_then_change",
+                               "later_touch"])
+            if mode == "later_touch":
+                yield self.later_touch_case(rng, N, nh)
+                continue
             human_leads = rng.random() < 0.35 and mode != "fixed"
             pool = list(range(2, N + 1))
             humans = sorted(rng.sample(pool, nh - 1 if human_leads else nh) + ([1] if human_leads else []))
@@ -101,6 +105,35 @@ class C12(scen.WorldProp):
             yield {"k": "world", "scenario": sc, "mode": mode, "a": a, "c": c, "change": change, "humans": humans,
                    "inertia": inertia, "rows": rows, "N": N, "gap": gap, "t0": t0, "maxb": maxb}
 
+    def later_touch_case(self, rng, N, nh):
+        """Two touches in one session, each led by a human, each at a tempo of its own: the second touch
+        must be fitted to the second touch's strikes only (nothing remembered from the first)."""
+        humans = sorted(rng.sample(range(2, N + 1), nh - 1) + [1])
+        ps = rng.choice([120, 150, 178, 200])
+        gap = rng.choice([1.0, 1.0, 0.0, 2.0])
+        I = scen.interval(ps, N)
+        inertia = rng.choice([0.0, 0.0, 0.25, 0.5])
+        maxb = rng.choice([8, 15, 15, 30])
+        t0 = 1000.0 + rng.random()
+        a1, c1 = t0 + rng.uniform(2.0, 6.0), I * rng.uniform(0.93, 1.07)
+        rows1 = rng.choice([4, 6, 8])
+        t_stand = a1 + c1 * scen.blow_index(N, gap, rows1 - 2, N // 2)
+        t1 = a1 + c1 * scen.blow_index(N, gap, rows1, 0) + 1.0 + rng.random()
+        a2, c2 = t1 + rng.uniform(2.0, 6.0), I * rng.uniform(0.93, 1.07)
+        rows2 = 16
+        events = ([call(t0, LOOK_TO)] + steady_band(N, humans, a1, c1, gap, rows1) + [call(t_stand, scen.STAND)]
+                  + [[t1 - 0.3, "msg", {"m": "global_state", "state": [True] * N}], call(t1, LOOK_TO)]
+                  + steady_band(N, humans, a2, c2, gap, rows2))
+        events.sort(key=lambda e: e[0])
+        end = a2 + c2 * scen.blow_index(N, gap, rows2, 0) + 0.5
+        sc = {"start": 1000.0, "end": end, "tower_size": N, "events": events,
+              "on_join": scen.humans_on_join(humans),
+              "bot": scen.bot_cfg({"type": "plainhunt", "stage": N, "start_row": None}),
+              "rhythm": scen.rhythm_cfg("regression", inertia=inertia, peal_speed=ps, gap=gap, max_bells=maxb)}
+        return {"k": "world", "scenario": sc, "mode": "later_touch", "a": a2, "c": c2, "change": None, "humans": humans,
+                "inertia": inertia, "rows": rows2, "N": N, "gap": gap, "t0": t0, "maxb": maxb, "t1": t1,
+                "first": [a1, c1, rows1]}
+
     def nontrivial(self, req, reply):
         return req["mode"] != "fixed" and len(scen.rings(reply)) > 4
 
@@ -110,6 +143,16 @@ class C12(scen.WorldProp):
     def oracle(self, req, reply):
         if reply["crashed"] or reply["handler_crashes"]:
             return f"crash: main={reply['crashed']} handlers={reply['handler_crashes']}"
+        if req["mode"] == "later_touch":
+            sub = "inertia0" if req["inertia"] == 0 else "geometric"
+            a1, c1, rows1 = req["first"]
+            t1 = req["t1"]
+            v = self.oracle(dict(req, mode=sub, a=a1, c=c1, rows=rows1),
+                            dict(reply, obs=[o for o in reply["obs"] if scen.b2f(o[0]) < t1]))
+            if v:
+                return "first touch: " + v
+            v = self.oracle(dict(req, mode=sub), dict(reply, obs=[o for o in reply["obs"] if scen.b2f(o[0]) >= t1]))
+            return "second touch (nothing of the first may be remembered): " + v if v else None
         N, gap, a, c = req["N"], req["gap"], req["a"], req["c"]
         humans = req["humans"]
         wbells = [b for b in range(1, N + 1) if b not in humans]
